@@ -1,15 +1,15 @@
 #!/bin/bash
 # confirm a seeded change in its scratch worktree: demo fails with it / passes without it, and the
-# existing test suite result is unchanged (495 passed, the same 17 failures).  usage: confirm_seed.sh Cxx
-id=$1; wt=/tmp/wt/$id; out=/tmp/wt/$id.confirm
+# existing test suite result is unchanged (495 passed, the same 17 failures).  usage: [WT=/tmp/wt2] confirm_seed.sh Cxx
+id=$1; base=${WT:-/tmp/wt}; wt=$base/$id; out=$base/$id.confirm
 cd $wt || exit 2
 {
-git diff -- spatialpandas > /tmp/wt/$id.patch
-echo "== patch lines: $(wc -l < /tmp/wt/$id.patch)"
+git diff -- spatialpandas > $base/$id.patch
+echo "== patch lines: $(wc -l < $base/$id.patch)"
 echo "== demo WITH change"; timeout 600 /venv/bin/python demo_$id.py 2>&1 | grep -v conda | tail -3; echo "exit=${PIPESTATUS[0]}"
-git apply -R /tmp/wt/$id.patch
+git apply -R $base/$id.patch
 echo "== demo WITHOUT change"; timeout 600 /venv/bin/python demo_$id.py 2>&1 | grep -v conda | tail -3; echo "exit=${PIPESTATUS[0]}"
-git apply /tmp/wt/$id.patch
+git apply $base/$id.patch
 echo "== test suite WITH change"
 timeout 1500 /venv/bin/python -m pytest -q -p no:cacheprovider --timeout=900 --continue-on-collection-errors --deselect demo_$id.py 2>&1 | grep -v conda | tail -1
 } > $out 2>&1
